@@ -14,12 +14,13 @@ Definition bind {A B} (r : result A) (f : A -> result B) : result B :=
 Definition ValueError : str := s2l "ValueError".
 
 (* CPython 3.11+: int(str) and str(int) raise ValueError beyond
-   sys.int_info.default_max_str_digits = 4300 digits (counted on the string,
-   leading zeros included) — value read from the running interpreter by the
-   adapter on every run. *)
-Definition max_str_digits : nat := 4300.
-Definition py_int (ds : str) : result N :=
-  if Nat.leb (length ds) max_str_digits then Ok (digits_val ds) else PyErr ValueError.
+   sys.int_info.default_max_str_digits = 4300 digits (value read from the running
+   interpreter by the adapter on every run).  With the fix pending/C18-int-max-str-digits.diff
+   the parser never converts a number of more than _MAX_NUMBER_DIGITS = 100 digits: it yields
+   an Error event instead, so int() cannot raise; str() of highest_test (end-of-stream message,
+   subtest log) could only raise after about 10^4300 unnumbered test lines. *)
+Definition max_number_digits : nat := 100.
+Definition too_long (ds : str) : bool := Nat.ltb max_number_digits (length ds).   (* len(num) > _MAX_NUMBER_DIGITS *)
 Definition str_limit : N := 10 ^ 4300.
 Definition py_str_ok (n : N) : bool := n <? str_limit.
 
@@ -28,7 +29,7 @@ Inductive tres := PENDING | RUNNING | OK | TIMEOUT | INTERRUPT | SKIP | FAIL
                 | EXPECTEDFAIL | UNEXPECTEDPASS | ERROR | IGNORED.
 
 (* the messages of TAPParser.Error, reduced to their kind *)
-Inductive ekind := KLate | KExceeds | KInvDir | KPlan2 | KPlanSkip | KPlanDir
+Inductive ekind := KBig | KLate | KExceeds | KInvDir | KPlan2 | KPlanSkip | KPlanDir
                  | KVerPos | KVerLow | KYaml | KFew | KMany | KDup | KMissing.
 
 Record plan := mkplan { p_num : N; p_late : bool; p_skipped : bool; p_expl : option str }.
@@ -136,9 +137,12 @@ Definition main_line (s : state) (line0 : str) : result (state * list event) :=
           | None => (s, [])
           end in
         let n := num_tests s + 1 in                                (* :436 *)
-        bind (match num with                                       (* :437 *)
+        (* :437 with the fix: an over-long number is an error and the line counts as unnumbered *)
+        let big := match num with Some ds => too_long ds | None => false end in
+        let evb := if big then [EError KBig] else [] in
+        bind (match num with
               | None => Ok (last_test s + 1)
-              | Some ds => py_int ds
+              | Some ds => if too_long ds then Ok (last_test s + 1) else Ok (digits_val ds)
               end) (fun lt =>
         let h := N.max (highest_test s) lt in                      (* :438 *)
         let s := set_counts s n lt h (add_seen lt (seen_tests s)) in
@@ -148,12 +152,13 @@ Definition main_line (s : state) (line0 : str) : result (state * list event) :=
           | None => []
           end in
         let ev3 := parse_test ok lt name (option_map fst dir) (option_map snd dir) in  (* :441-442 *)
-        Ok (set_st s AfterTest, ev1 ++ ev2 ++ ev3))                (* :443 *)
+        Ok (set_st s AfterTest, ev1 ++ evb ++ ev2 ++ ev3))         (* :443 *)
     | LPlan ds dir =>                                              (* :446-462 *)
         match cur_plan s with
         | Some _ => Ok (s, [EError KPlan2])                        (* :448-449 *)
         | None =>
-            bind (py_int ds) (fun n =>                             (* :451 *)
+            if too_long ds then Ok (s, [EError KBig]) else         (* fix: no conversion *)
+            bind (Ok (digits_val ds)) (fun n =>                    (* :451 *)
             let '(evs, skipped) :=
               match dir with                                       (* :453 *)
               | Some (d, _) =>
@@ -169,7 +174,8 @@ Definition main_line (s : state) (line0 : str) : result (state * list event) :=
     | LVersion ds =>                                               (* :471-481 *)
         if negb (lineno s =? 1) then Ok (s, [EError KVerPos])      (* :473-475 *)
         else
-          bind (py_int ds) (fun v =>                               (* :476 *)
+          if too_long ds then Ok (s, [EError KBig]) else           (* fix: no conversion *)
+          bind (Ok (digits_val ds)) (fun v =>                      (* :476 *)
           let s := set_version s v in
           if v <? 13 then Ok (s, [EError KVerLow])                 (* :477-478 *)
           else Ok (s, [EVersion v]))                               (* :480 *)
